@@ -29,6 +29,7 @@ GenNext ==
          /\ stale => (cmd \notin {"LOGIN", "AUTHENTICATE"} /\ ~cfg.utf8)
          /\ cmd = "AUTHENTICATE" => (react = "grant" /\ ~cfg.utf8)
          /\ cmd # "AUTHENTICATE" => ~cfg.saslir       \* SASL-IR matters to AUTHENTICATE only        \* nothing can have been enabled before the login
+         /\ cmd # "APPEND" => ~cfg.applimit        \* APPENDLIMIT matters to APPEND only
          /\ unauth => (cfg.utf8 /\ ~stale /\ cmd # "AUTHENTICATE")
          /\ case' = [cmd |-> cmd, class |-> class, react |-> react, stale |-> stale, unauth |-> unauth]
          /\ PrintT(<<"T", ToJson([cfg |-> cfg, case |-> case'])>>)
